@@ -28,6 +28,9 @@ def generate(rng, tier, shard, nshards):
         b = [[j, rng.choice(ws)] for j in range(A["n"]) if rng.random() < 0.6]
         for side in ("left", "right"):
             yield lops.event("solve", dict(base, b=b, side=side), site=f"solve_{side}", feat=feat)
+            if rng.random() < 0.5:       # the caller's right-hand side is reused for a second solve
+                yield lops.event("solve", dict(base, b=b, side=side, before=[rng.choice(["left", "right"])]),
+                                 site=f"solve_{side}[b reused]", feat=feat + "+rhs-reused")
         yield lops.event("blocks", base, site="blocks", feat=feat)
 
 
